@@ -9,8 +9,13 @@ import (
 // strconv only.  Reply "<int64(f)>x<hex of the shortest decimal text of f>",
 // the text being "-" (empty) when f is an integer below 2^53 in magnitude;
 // ERR when ParseFloat reports an error (value out of range).  The model asks
-// only for literals that its own exact path (integer literal of magnitude
-// below 2^53) does not cover.
+// only for literals it does not decide itself (coq/model/Json.v lit_class =
+// NCOracle): values that are not integers, integers of magnitude 2^53 and up
+// below the overflow bound, and literals whose integer part has more than 800
+// digits.  Integers below 2^53 in ANY spelling (1700003600.0, 17000036e2,
+// 1.7000036E+9), zeros, underflows and overflows never come here (the OCaml
+// handler fails if they do).  int64(f) for |f| >= 2^63 is whatever this
+// platform's conversion yields: the harness computes it the same way.
 func init() {
 	ops["json_num"] = func(a []string) string { // literal
 		f, err := strconv.ParseFloat(string(uh(a[0])), 64)
